@@ -139,10 +139,27 @@ impl<'de> DeserializeSeed<'de> for Expect {
                 "datetime" => <toml_datetime::Datetime as serde::Deserialize>::deserialize(d).map(|_| ()),
                 "char" => <char as serde::Deserialize>::deserialize(d).map(|_| ()),
                 "unit" => <() as serde::Deserialize>::deserialize(d),
+                // a derived struct with a required field the table does not have: the visitor raises
+                // `missing field` (no span of its own), `deserialize_struct` has to locate it
+                "missing" => d.deserialize_struct("S", &["__absent__"], MissingField),
                 _ => panic!("kind"),
             };
         }
         d.deserialize_map(self)
+    }
+}
+
+struct MissingField;
+impl<'de> Visitor<'de> for MissingField {
+    type Value = ();
+    fn expecting(&self, f: &mut std::fmt::Formatter<'_>) -> std::fmt::Result {
+        write!(f, "struct S")
+    }
+    fn visit_map<A: MapAccess<'de>>(self, mut map: A) -> Result<(), A::Error> {
+        while let Some(_k) = map.next_key::<String>()? {
+            map.next_value::<IgnoredAny>()?;
+        }
+        Err(<A::Error as serde::de::Error>::missing_field("__absent__"))
     }
 }
 
